@@ -53,6 +53,14 @@ HARD_ERR = re.compile(r'^(error\[E\d+\]|.*is not supported|.*not yet supported|.
                       r'.*cannot find|.*mismatched types)', re.I)
 
 
+# messages that denote a failed proof obligation (everything else is a front-end problem)
+VERIF_MSG = re.compile(r'(postcondition not satisfied|precondition not satisfied|requires not satisfied|'
+                       r'possible arithmetic underflow/overflow|possible division by zero|assertion failed|'
+                       r'invariant not satisfied|decreases not satisfied|could not prove termination|'
+                       r'possible bit shift underflow/overflow|index out of bounds|unreachable|'
+                       r'failed to (prove|satisfy)|unable to prove|assert_by|not satisfied|resource limit|loop invariant)', re.I)
+
+
 def classify(res, unit, fname):
     """Turn Verus diagnostics into a list of failures with attribution, or an infrastructure
     problem."""
@@ -71,7 +79,7 @@ def classify(res, unit, fname):
     failures = []
     for d in errs:
         msg = d.get('message', '')
-        if d.get('code') or 'is not supported' in msg:
+        if d.get('code') or 'is not supported' in msg or not VERIF_MSG.search(msg):
             return dict(status='inconclusive', reason='rustc/verus front-end error: ' + msg[:300]), []
         if 'resource limit' in msg.lower() or 'rlimit' in msg.lower():
             return dict(status='inconclusive', reason='solver resource limit: ' + msg[:200]), []
@@ -153,28 +161,41 @@ def run_unit(name, repo, scratch, with_canaries=True, jobs=8):
     result['unit_obj'] = unit
     result['text'] = text
     if with_canaries and unit.canaries:
+        base_keys = set()
+        for d in res['diags']:
+            for s_ in d.get('spans', []):
+                if s_.get('is_primary'):
+                    base_keys.add((d.get('message'), s_['line_start']))
+
         def one(can):
             try:
                 t = unit.canary_text(text, can)
             except LostAnchor as e:
                 return dict(label=can['label'], fn=can['fn'], status='lost', reason=str(e))
-            p = os.path.join(scratch, 'canary_%s_%s_%s.rs' % (name, can['fn'].replace('::', '_'), can['label']))
+            p = os.path.join(scratch, 'canary_%s_%s_%s.rs' % (name, re.sub(r'\W', '_', can['fn']), can['label']))
             open(p, 'w').write(t)
-            short = can['fn'].split('::')[-1]
-            r = run_verus(p, extra=['--verify-root', '--verify-function', '*' + short], timeout=300)
-            if r.get('timeout') or r.get('out') is None:
+            r = run_verus(p, timeout=400)
+            if r.get('timeout') or r.get('out') is None or 'verification-results' not in (r.get('out') or {}) \
+                    or (r['out']['verification-results'].get('verified', 0) + r['out']['verification-results'].get('errors', 0)) == 0:
                 return dict(label=can['label'], fn=can['fn'], status='inconclusive',
                             reason=(r.get('stderr') or '')[-300:])
             lo, hi = can['lines']
-            hit = False
+            new_fail = []
             for d in r['diags']:
-                if d.get('level') != 'error':
+                if d.get('level') != 'error' or not VERIF_MSG.search(d.get('message', '')):
                     continue
-                for s in d.get('spans', []):
-                    if lo <= s.get('line_start', 0) <= hi:
-                        hit = True
-            return dict(label=can['label'], fn=can['fn'], status='rejected' if hit else 'ACCEPTED',
-                        mutation='%s => %s' % (can['regex'], can['repl']))
+                key = None
+                inside = False
+                for s_ in d.get('spans', []):
+                    if lo <= s_.get('line_start', 0) <= hi:
+                        inside = True
+                    if s_.get('is_primary'):
+                        key = (d['message'], s_['line_start'])
+                if inside and key not in base_keys:
+                    new_fail.append(key)
+            return dict(label=can['label'], fn=can['fn'], status='rejected' if new_fail else 'ACCEPTED',
+                        mutation='%s => %s' % (can['regex'], can['repl']),
+                        new_failures=['%s @gen-line %d' % k for k in new_fail][:3])
         with concurrent.futures.ThreadPoolExecutor(max_workers=jobs) as ex:
             result['canaries'] = list(ex.map(one, unit.canaries))
         # a canary whose pattern no longer exists (code changed under it) is skipped, not fatal
@@ -195,7 +216,7 @@ if __name__ == '__main__':
         r.pop('unit_obj', None)
         r.pop('text', None)
         fs = r.pop('functions', [])
-        print(json.dumps(r, indent=1)[:6000])
+        print(json.dumps(r, indent=1))
         print(len(fs), 'functions')
     finally:
         if '--keep' in sys.argv:
